@@ -45,7 +45,10 @@ Quoted == { V1(S("\"a b\""), Str(S("a b")), All, FALSE), V1(S("'a b'"), Str(S("a
             V1(S("\" x\""), Str(S(" x")), {"PVL"}, FALSE), V1(S("\" x\""), Str(S("x")), Folding, FALSE),
             V1(S("\"p") \o LF \o S("q\""), Str(S("p") \o LF \o S("q")), {"PVL"}, FALSE),
             V1(S("\"p") \o LF \o S("q\""), Str(S("p q")), Folding, FALSE),
-            V1(S("\"p-") \o LF \o S("  q\""), Str(S("pq")), Folding, FALSE) }
+            V1(S("\"p-") \o LF \o S("  q\""), Str(S("pq")), Folding, FALSE),
+            V1(S("\"Jupi-") \o <<13, 10>> \o S("   ter\""), Str(S("Jupiter")), Folding, FALSE),
+            V1(S("\"x-") \o LF \o LF \o <<9>> \o S("y z-") \o <<13>> \o S("w\""), Str(S("xy zw")), Folding, FALSE),
+            V1(S("'a") \o <<9>> \o S("b ") \o <<13, 10>> \o S(" c'"), Str(S("a b c")), Folding, FALSE) }
 Words == { V1(S(x), Str(S(x)), All, FALSE) : x \in {"a", "a_b", "Ab1"} }
     \cup { V1(S(x), Str(S(x)), PvlFam, FALSE) : x \in {"a-b", "N/A", "a:b", "^P", "9a", "a.b", "_a"} }
     \cup { V1(S("x+y"), Str(S("x+y")), {"ISIS", "OMNI"}, FALSE) }
@@ -177,7 +180,8 @@ SepsBase == << <<32>>, <<9>>, <<10>>, <<13>>, <<11>>, <<12>>, <<13, 10>>, <<32, 
 SepsHash == << S(" # c") \o LF, LF \o S("#c") \o LF \o S("  "), S(" # /* c") \o LF, S(" # = END ' \"") \o LF >>
 Seps == IF HashComments(Dialect) THEN SepsBase \o SepsHash ELSE SepsBase
 Styles == << [opt |-> <<>>, req |-> <<32>>], [opt |-> <<32>>, req |-> <<10>>], [opt |-> <<9>>, req |-> <<13, 10, 32, 32>>],
-            [opt |-> <<10>>, req |-> <<10, 10>>] >>          \* every token on its own line, blank lines between statements
+            [opt |-> <<10>>, req |-> <<10, 10>>],          \* every token on its own line, blank lines between statements
+            [opt |-> S("/**/"), req |-> S(" /* c */ ")] >>   \* a comment in every gap
 
 ChooseLayout ==
    /\ phase = "ended" /\ phase' = "laid" /\ UNCHANGED <<toks, stk, nst, varied>>
